@@ -304,6 +304,12 @@ func runC09(t *testing.T, tape *sim.Tape, tier string) *Outcome {
 			if sc.Fault != "complete" {
 				f.Fault = sc.Fault
 			}
+			if sc.Fault == "abort" && tape.Draw(2, "afterhello") == 1 {
+				// half of the aborted handshakes do not end with a reset: behind the genuine ClientHello the client
+				// goes on in plain text, or with one of the other non-TLS byte sequences
+				f.AfterHello = append([][]byte{[]byte("*1\r\n$4\r\nPING\r\n"), []byte("*\x03\x03\x00\x05hello")}, tlsGarbage...)[tape.Draw(2+len(tlsGarbage), "afterhellokind")]
+				o.stat("client_hello_followed_by_non_tls_bytes", 1)
+			}
 			f.Chunk = tape.Draw(3, "chunkmode")
 			faulties = append(faulties, f)
 		}
@@ -518,7 +524,7 @@ func init() {
 	register(&Check{
 		ID: "C09", Bubble: true, Run: runC09,
 		Runs:   map[string]int{"quick": 20 * n, "thorough": 1500 * n},
-		Rule:   fmt.Sprintf("the scenario space {no rule, common-name rule, rule+password} x {no certificate, self-signed, foreign CA, expired, right CA wrong name (half of them a near miss of the rule's name), right CA wrong common name with the rule's name among the DNS alternative names, right name only on an intermediate, right CA right name, plain-text bytes, garbage; abort after ClientHello; stalled handshake with and without a valid certificate} x {before, between, after well-behaved clients} = %d scenarios is enumerated completely (run index mod %d); per scenario the schedule (accept loop vs. handshake records vs. other clients), record chunking and TLS 1.2/1.3 are sampled; one run in sixteen adds a crowd of 130..250 connections that stay silent on the TLS port; a quarter of the runs with a rule use a rule name with separator characters, carried exactly by the admitted identity and in pieces by the wrong-name client; a third of the runs repeat the scenario client 2..12 times, half of those one after the other with a shared TLS session cache (resumed sessions); with rule+password every TLS client first sends a command before AUTH, which must not reach the handler; one run in six starts from a configuration history (files; former CA, under which a client of that CA is served and keeps its TLS session; CA file replaced in place and set again; Restart; the foreign-CA client of such a run is that client with its session); a quarter of the other runs give the server a certificate chain (leaf + issuer) of an authority of its own, whose client certificate is the foreign one of that run; distinct = distinct (scenario, event-log hash) pairs", n, n),
+		Rule:   fmt.Sprintf("the scenario space {no rule, common-name rule, rule+password} x {no certificate, self-signed, foreign CA, expired, right CA wrong name (half of them a near miss of the rule's name), right CA wrong common name with the rule's name among the DNS alternative names, right name only on an intermediate, right CA right name, plain-text bytes, garbage; abort after ClientHello (by a reset, or by going on with plain text or other non-TLS bytes); stalled handshake with and without a valid certificate} x {before, between, after well-behaved clients} = %d scenarios is enumerated completely (run index mod %d); per scenario the schedule (accept loop vs. handshake records vs. other clients), record chunking and TLS 1.2/1.3 are sampled; one run in sixteen adds a crowd of 130..250 connections that stay silent on the TLS port; a quarter of the runs with a rule use a rule name with separator characters, carried exactly by the admitted identity and in pieces by the wrong-name client; a third of the runs repeat the scenario client 2..12 times, half of those one after the other with a shared TLS session cache (resumed sessions); with rule+password every TLS client first sends a command before AUTH, which must not reach the handler; one run in six starts from a configuration history (files; former CA, under which a client of that CA is served and keeps its TLS session; CA file replaced in place and set again; Restart; the foreign-CA client of such a run is that client with its session); a quarter of the other runs give the server a certificate chain (leaf + issuer) of an authority of its own, whose client certificate is the foreign one of that run; distinct = distinct (scenario, event-log hash) pairs", n, n),
 		Real:   []string{"redis.Server TLS accept loop and handshake, NewTLSConfigFrom, auth.CertificateAuthenticator, auth.AuthManager, crypto/tls (server and clients), crypto/x509 verification against the simulated clock"},
 		Stub:   []string{"network: simulated", "certificates: deterministic Ed25519 PKI valid relative to the bubble epoch", "handler: recording double"},
 		Assume: []string{"a plain client counts as served when it gets any reply to PING (with rule+password it cannot authenticate on the plain port)"},
